@@ -4,6 +4,7 @@ package main
 
 import (
 	"fmt"
+	"go/types"
 	"strings"
 
 	"golang.org/x/tools/go/ssa"
@@ -109,6 +110,52 @@ func (p *Prog) globalInvObligations(pkgPath string, invs []Clause, prop string) 
 		FuncKey: sk, Result: SolverResult{Solver: "govc-structural", Answer: "unsat"}})
 	src, h := p.funcSource(initFn)
 	return out, funcInfo{Key: sk, Source: src, Hash: h, Obls: len(out)}, nil
+}
+
+// closesOnlyObligation scans every function of the module for a send on the declared channel field.
+func (p *Prog) closesOnlyObligation(co ClosesOnly, prop string) *Obligation {
+	name := p.shortKey(co.PkgPath) + "." + co.Type + "." + co.Field + "/FRAME.closes-only"
+	ob := &Obligation{Name: name, Class: "FRAME", Props: []string{prop}, Expect: "unsat", Status: "discharged", FuncKey: name,
+		Desc:   "no send statement (or select send arm) anywhere in the module targets the channel field " + co.Type + "." + co.Field,
+		Result: SolverResult{Solver: "govc-structural", Answer: "unsat"}}
+	isField := func(v ssa.Value) bool {
+		u, ok := v.(*ssa.UnOp)
+		if !ok {
+			return false
+		}
+		fa, ok := u.X.(*ssa.FieldAddr)
+		if !ok {
+			return false
+		}
+		n, ok := derefType(fa.X.Type()).(*types.Named)
+		if !ok || n.Obj().Pkg() == nil || n.Obj().Pkg().Path() != co.PkgPath || n.Obj().Name() != co.Type {
+			return false
+		}
+		return n.Underlying().(*types.Struct).Field(fa.Field).Name() == co.Field
+	}
+	for key, fn := range p.funcs {
+		for _, b := range fn.Blocks {
+			for _, ins := range b.Instrs {
+				switch x := ins.(type) {
+				case *ssa.Send:
+					if isField(x.Chan) {
+						ob.Status = "failed"
+						ob.Result = SolverResult{Solver: "govc", Answer: "send-found"}
+						ob.Desc += "; send found in " + p.shortKey(key)
+					}
+				case *ssa.Select:
+					for _, st := range x.States {
+						if st.Dir == types.SendOnly && isField(st.Chan) {
+							ob.Status = "failed"
+							ob.Result = SolverResult{Solver: "govc", Answer: "send-found"}
+							ob.Desc += "; select send arm found in " + p.shortKey(key)
+						}
+					}
+				}
+			}
+		}
+	}
+	return ob
 }
 
 func propertyExplanation(prop string) string {
